@@ -334,8 +334,10 @@ func CompileWarrior(r io.Reader, config SimulatorConfig) (WarriorData, error) {
 		} else {
 			break
 		}
+		// each pass expands a single FOR block, so this bounds the number of
+		// blocks (counting the copies made by enclosing loops), not the nesting
 		depth++
-		if depth > 12 {
+		if depth > 1000 {
 			return WarriorData{}, fmt.Errorf("for loop depth exceeded")
 		}
 	}
